@@ -242,7 +242,7 @@ Lemma qo_oq q : qo (oq q) = q.
 Proof. destruct q; reflexivity. Qed.
 
 (* adding the slash:  <l>/  or  ./<l>/  *)
-Lemma loc_ok_add t body l pre q :
+Lemma loc_ok_add (t : bytes) (body : list bytes) (l pre q : bytes) :
   split_seg t [] = body ++ [l] ->
   Forall (fun x => real_seg x = true) body -> real_seg l = true ->
   (pre = [] /\ lacks ":" l = true) \/ pre = ["."; "/"] ->
@@ -295,8 +295,8 @@ Proof.
 Qed.
 
 (* removing the slash:  ../<b>  *)
-Lemma loc_ok_remove t bb b q :
-  split_seg t [] = (bb ++ [b]) ++ [[]] ->
+Lemma loc_ok_remove (t : bytes) (bb : list bytes) (b q : bytes) :
+  split_seg t [] = (bb ++ [b]) ++ [([] : bytes)] ->
   Forall (fun x => real_seg x = true) bb -> real_seg b = true ->
   lacks "#" b = true -> lacks "?" b = true -> lacks "#" q = true ->
   location_ok ("/" :: t) q (([".";".";"/"] ++ b) ++ qs q) = true.
@@ -305,7 +305,7 @@ Proof.
   pose proof (split_seg_segs_slash_free t [] eq_refl) as Hsf. rewrite E in Hsf.
   apply Forall_app in Hsf. destruct Hsf as [Hsb _].
   assert (Hsb' := Hsb). apply Forall_app in Hsb'. destruct Hsb' as [Hsbb Hsl]. inversion Hsl as [|? ? Hsl' _]. subst.
-  assert (Et : t = join_seg ((bb ++ [b]) ++ [[]])) by (rewrite <- E; symmetry; apply join_split).
+  assert (Et : t = join_seg ((bb ++ [b]) ++ [([] : bytes)])) by (rewrite <- E; symmetry; apply join_split).
   unfold location_ok.
   assert (Hparse : parse_ref (([".";".";"/"] ++ b) ++ qs q) =
             {| u_scheme := None; u_authority := None; u_path := [".";".";"/"] ++ b; u_query := oq q; u_fragment := None |}).
@@ -325,9 +325,10 @@ Proof.
       simpl. rewrite Hd, Hdd. simpl. rewrite app_nil_r, rev_involutive. reflexivity.
     - apply Forall_app. split; [assumption|]. constructor; [assumption|constructor].
     - simpl. congruence. }
-  rewrite Hsplit, qo_oq, bytes_eqb_refl, andb_true_r.
+  match goal with |- context [rds ?xa ?xb] => replace (rds xa xb) with (bb ++ [b]) by (symmetry; exact Hsplit) end.
+  rewrite qo_oq, bytes_eqb_refl, andb_true_r.
   apply bytes_eqb_eq. rewrite Et.
-  rewrite join_seg_app_last by (destruct bb; simpl; congruence).
+  rewrite (join_seg_app_last (bb ++ [b]) []) by (destruct bb; simpl; congruence).
   change ("/" :: join_seg (bb ++ [b]) ++ ["/"]) with (("/" :: join_seg (bb ++ [b])) ++ ["/"]).
   rewrite slash_adjusted_snoc. reflexivity.
 Qed.
